@@ -84,24 +84,21 @@ def readHeader (fmt : Nat) (st : CsState) (bs : Bytes) : Option (Announced × By
   let (ext, bs) ← if field24 = 16777215 then (rd4 bs).map (fun (e, r) => (some e, r)) else some (none, bs)
   pure ({ field24 := field24, len := len, typ := typ, msid := msid, ext := ext }, bs)
 
-/-- one chunk: `none` = not a (complete) legal chunk -/
-def chunk (s : State) (bs : Bytes) : Option (State × Option Msg × Bytes) := do
-  let (fmt, csid, bs) ← basic bs
-  if csid < 2 then none else
-  let st := (mapGet csid s.streams).getD {}
-  let have_ := (mapGet csid s.streams).isSome
-  if fmt ≠ 0 ∧ ¬ have_ then none else
-  let (a, bs) ← readHeader fmt st bs
+/-- timestamp and delta in force after this chunk's header (`none`: a message in flight was
+    continued by something other than a type 3 chunk or a repeat of its identical full header) -/
+def tsDelta (fmt : Nat) (st : CsState) (a : Announced) : Option (Nat × Nat) :=
   let value := a.ext.getD a.field24
-  let tsDelta : Option (Nat × Nat) :=
-    if st.inFlight then
-      if fmt = 3 then some (st.ts, st.delta)
-      else if fmt = 0 ∧ value = st.ts ∧ a.len = st.len ∧ a.typ = st.typ ∧ a.msid = st.msid then some (st.ts, value)
-      else none
-    else if fmt = 0 then some (value, value)
-    else if fmt = 3 then some (add32 st.ts st.delta, st.delta)
-    else some (add32 st.ts value, value)
-  let (ts, delta) ← tsDelta
+  if st.inFlight then
+    if fmt = 3 then some (st.ts, st.delta)
+    else if fmt = 0 ∧ value = st.ts ∧ a.len = st.len ∧ a.typ = st.typ ∧ a.msid = st.msid then some (st.ts, value)
+    else none
+  else if fmt = 0 then some (value, value)
+  else if fmt = 3 then some (add32 st.ts st.delta, st.delta)
+  else some (add32 st.ts value, value)
+
+/-- the payload part of a chunk and the state after it -/
+def payload (s : State) (csid : Nat) (st : CsState) (a : Announced) (ts delta : Nat) (bs : Bytes) :
+    Option (State × Option Msg × Bytes) :=
   if a.len < st.buf.length then none else
   let want := min s.cs (a.len - st.buf.length)
   if bs.length < want then none else
@@ -115,10 +112,27 @@ def chunk (s : State) (bs : Bytes) : Option (State × Option Msg × Bytes) := do
         | some v => if v ≥ 1 then v else s.cs
         | none => s.cs
       else s.cs
-    pure ({ cs := cs', streams := mapInsert csid { st' with buf := [], inFlight := false } s.streams },
+    some ({ cs := cs', streams := mapInsert csid { st' with buf := [], inFlight := false } s.streams },
           some { ts := ts, typ := a.typ, msid := a.msid, data := buf }, rest)
   else
-    pure ({ s with streams := mapInsert csid st' s.streams }, none, rest)
+    some ({ s with streams := mapInsert csid st' s.streams }, none, rest)
+
+/-- everything after the basic header -/
+def body (s : State) (fmt csid : Nat) (bs : Bytes) : Option (State × Option Msg × Bytes) :=
+  let st := (mapGet csid s.streams).getD {}
+  if fmt ≠ 0 ∧ (mapGet csid s.streams).isNone then none else
+  match readHeader fmt st bs with
+  | none => none
+  | some (a, bs) =>
+    match tsDelta fmt st a with
+    | none => none
+    | some (ts, delta) => payload s csid st a ts delta bs
+
+/-- one chunk: `none` = not a (complete) legal chunk -/
+def chunk (s : State) (bs : Bytes) : Option (State × Option Msg × Bytes) :=
+  match basic bs with
+  | none => none
+  | some (fmt, csid, bs) => if csid < 2 then none else body s fmt csid bs
 
 /-- a whole byte string: every chunk consumes at least its basic header, so `length` fuel suffices -/
 def decodeFuel : Nat → State → Bytes → List Msg → Option (List Msg)
@@ -130,5 +144,57 @@ def decodeFuel : Nat → State → Bytes → List Msg → Option (List Msg)
     | some (s', m, rest) => decodeFuel f s' rest (match m with | some m => acc ++ [m] | none => acc)
 
 def decode (bs : Bytes) : Option (List Msg) := decodeFuel bs.length {} bs []
+
+/-! ### the stream of a sequential, strictly conformant sender
+
+What a sender that finishes each message before starting the next and follows §5.3.1 to the letter
+produces — the class of streams the library's deserializer is built for (known finding K1 is
+about streams outside it).  On top of `chunk`:
+* only the chunk stream with a message in flight may appear until that message is complete;
+* a type 3 chunk that starts a message on a chunk stream whose governing 24-bit field is 0xFFFFFF
+  repeats the delta in force in its extended field (§5.3.1.3);
+* no SetChunkSize message announces the size 0 (§5.4.1: valid sizes are 1 to 0x7FFFFFFF).
+-/
+
+def strictOk (s : State) (cur : Option Nat) (bs : Bytes) : Bool :=
+  match basic bs with
+  | none => false
+  | some (fmt, csid, r) =>
+    (match cur with
+     | some k => decide (csid = k)
+     | none => true) &&
+    (match mapGet csid s.streams with
+     | some st =>
+       if fmt = 3 ∧ st.inFlight = false ∧ st.field24 = 16777215 then
+         (match rd4 r with
+          | some (e, _) => decide (e = st.delta)
+          | none => false)
+       else true
+     | none => true)
+
+def msgOk : Option Msg → Bool
+  | some m => !(decide (m.typ = 1) && decide (parseSetChunkSize m.data = some 0))
+  | none => true
+
+/-- chunk stream with a message in flight after a chunk on `csid` that produced `m` -/
+def nextCur (csid : Nat) : Option Msg → Option Nat
+  | some _ => none
+  | none => some csid
+
+def csidOf (bs : Bytes) : Nat := match basic bs with | some (_, k, _) => k | none => 0
+
+def decodeSeqFuel : Nat → State → Option Nat → Bytes → List Msg → Option (List Msg)
+  | 0, _, _, bs, acc => if bs.isEmpty then some acc else none
+  | f + 1, s, cur, bs, acc =>
+    if bs.isEmpty then some acc else
+    if strictOk s cur bs = false then none else
+    match chunk s bs with
+    | none => none
+    | some (s', m, rest) =>
+      if msgOk m = false then none else
+      decodeSeqFuel f s' (nextCur (csidOf bs) m) rest (match m with | some m => acc ++ [m] | none => acc)
+
+/-- the messages of a byte string a sequential, strictly conformant sender produced -/
+def decodeSeq (bs : Bytes) : Option (List Msg) := decodeSeqFuel bs.length {} none bs []
 
 end Rml.Spec.Chunk
